@@ -215,12 +215,18 @@ class SLock:
             raise MachineryError(f"pass-through lock {self.label} is contended")
         self.owner = me
         self.count += 1
+        hook = getattr(self.ctl, "on_lock_op", None)
+        if hook:
+            hook("acq", self)
         return True
 
     def release(self):
         me = self._me()
         if self.ctl.scheduling(self.group):
             self.ctl.park("release", self)
+        hook = getattr(self.ctl, "on_lock_op", None)
+        if hook and self.owner == me:
+            hook("rel", self)
         if self.owner != me:
             if self.ctl.aborting:
                 return
